@@ -86,6 +86,29 @@ Proof.
   intros E. inversion E. apply from_samples_bqm_honest.
 Qed.
 
+(* the label test of parse_initial_states (bqm.variables ^ initial_states_variables) is a
+   SYMMETRIC difference: missing labels and foreign labels are both rejected *)
+Theorem same_label_set_symmetric vars ls :
+  same_label_set vars ls = true <-> (forall v, In v vars <-> In v ls).
+Proof.
+  unfold same_label_set. rewrite andb_true_iff, !forallb_forall. split.
+  - intros [H1 H2] v. split; intros Hv.
+    + apply H1 in Hv. apply existsb_exists in Hv. destruct Hv as [x [Hx E]].
+      apply Nat.eqb_eq in E. subst. exact Hx.
+    + apply H2 in Hv. apply existsb_exists in Hv. destruct Hv as [x [Hx E]].
+      apply Nat.eqb_eq in E. subst. exact Hx.
+  - intros H. split; intros v Hv; apply existsb_exists; exists v; (split; [apply H; exact Hv|apply Nat.eqb_refl]).
+Qed.
+
+Theorem identity_rejects_foreign_or_missing g num_reads e vars ls conv init extra v :
+  (In v ls /\ ~ In v vars) \/ (In v vars /\ ~ In v ls) ->
+  identity_sample g num_reads e vars ls conv init extra = None.
+Proof.
+  intros H. rewrite identity_sample_unfold.
+  destruct (same_label_set vars ls) eqn:E; [|reflexivity].
+  exfalso. pose proof (proj1 (same_label_set_symmetric vars ls) E v) as E2. tauto.
+Qed.
+
 (* exactly when the call is rejected (ValueError) *)
 Theorem identity_rejects g num_reads e vars ls conv init extra :
   identity_sample g num_reads e vars ls conv init extra = None <->
